@@ -133,7 +133,18 @@ func main() {
 			}
 			cf.Close()
 		}
-		gen(g)
+		func() {
+			// library code reached directly by a generator (not through an executor) may panic on a changed tree: that is a
+			// finding, not a harness failure
+			defer func() {
+				if r := recover(); r != nil {
+					n++
+					fmt.Fprintf(ops, "%d P1 genpanic %s\n", n, name)
+					fmt.Fprintf(impl, "%d %s | panic\n", n, strings.ReplaceAll(fmt.Sprintf("panic in library code called while generating inputs: %v", r), " ", "_"))
+				}
+			}()
+			gen(g)
+		}()
 		ops.Flush()
 		impl.Flush()
 		of.Close()
